@@ -187,7 +187,7 @@ def check_ext(w):
     return got == exp, 'addExtension(%r) = %r' % (w['name'], got)
 
 
-CONTRACTS = {'Filenames.addExtension': dict(check=check_ext, small=lambda: (dict(name=n, ext=e) for n in ['a', 'a.b', '.a', 'a.', 'dir.x/a', ''] for e in ['.html', '']))}
+CONTRACTS = {'Filenames._newFilename': dict(check=check_gen, gen=gen_case), 'Filenames.addExtension': dict(check=check_ext, small=lambda: (dict(name=n, ext=e) for n in ['a', 'a.b', '.a', 'a.', 'dir.x/a', ''] for e in ['.html', '']))}
 GROUND = []
 BOUNDED = [('bounded/filenames', 'the sequence of issued names equals the reference model of the template grammar (static names, wildcard alternatives, $num, word limits, forbidden characters, extension); names pairwise distinct and never reserved',
             'all orderings of 2 out of 3 wildcard alternatives x all sequences of 3 requests out of 4 bindings x static/no static, and 3 prefix/suffix pairs x all orderings of 3 alternatives x 27 request sequences (exhaustive); random templates with 1-3 alternatives, prefix / suffix text and <= 7 requests', bounded_gen)]
